@@ -238,9 +238,17 @@ const embedSink = "/** @param k */\n{template .sink}\n{$k}\n{/template}\n"
 // IsSplit: a case of the text|meaning split family (it has its own meaning).
 func (c *MsgCase) IsSplit() bool { return strings.HasPrefix(c.ID, "S") }
 
+// IsAttr: a case of the {msg}-attributes family (meaning and descriptions with
+// quotes, backslashes, newlines, braces, non-ASCII, outer spaces).
+func (c *MsgCase) IsAttr() bool { return strings.HasPrefix(c.ID, "A") }
+
+// AwkwardTexts are used as descriptions of the attribute family (they must
+// not influence anything); cf. SoyMsg.MsgAttrTexts.
+var AwkwardTexts = []string{`say "hi"`, `back\slash`, "two\nlines", "it's", "{x}", " padded ", "ünï", ""}
+
 // caseMeanings lists the meanings a case is compiled with.
 func caseMeanings(c *MsgCase, withOthers bool) []string {
-	if c.IsSplit() {
+	if c.IsSplit() || c.IsAttr() {
 		var ms []string
 		for _, t := range c.Terms {
 			ms = append(ms, t.Meaning)
@@ -312,12 +320,19 @@ func ObserveAll(cases []*MsgCase, plan Plan) *Observations {
 		jobs <- func() {
 			for mi, mn := range meanings {
 				k := reps
-				if mi > 0 && !c.IsSplit() {
+				if mi > 0 && !c.IsSplit() && !c.IsAttr() {
 					k = 3
 				}
 				for i := 0; i < k; i++ {
 					desc := fmt.Sprintf("T|%s|%d description no. %d", c.ID, i, i*7919)
 					src := IsoSource(c, mn, desc)
+					if c.IsAttr() {
+						// descriptions with awkward characters, hidden, and (for an
+						// absent meaning) meaning="" written out
+						desc += " " + AwkwardTexts[i%len(AwkwardTexts)]
+						src = "{namespace c10.iso}\n" + Template("t", BodyVars(c.Parts), "",
+							MsgTagAttrs(mn, desc, UnparseBody(c.Parts), i%2 == 1, i%3 != 1))
+					}
 					m, err := ObserveByDesc([]core.File{{Name: "iso.soy", Text: src}}, globals)
 					atomic.AddInt64(&compiles, 1)
 					if err != nil {
@@ -325,6 +340,12 @@ func ObserveAll(cases []*MsgCase, plan Plan) *Observations {
 						break
 					}
 					o, ok := m[desc]
+					if !ok && len(m) == 1 {
+						// the only message of the file, whatever became of its description
+						for _, only := range m {
+							o, ok = only, true
+						}
+					}
 					if !ok {
 						obs.addErr(c.ID, "message not found after compile", src)
 						break
